@@ -197,7 +197,7 @@ func runC01(r *rt.Runner) {
 	}
 
 	// ---- (3)+(4) hostile charstrings and font dictionaries in valid containers
-	nFonts := r.N(6000, 600000)
+	nFonts := r.N(30000, 600000)
 	for k := 0; k < nFonts; k++ {
 		r.Case("hostile-font", func(c *rt.C) {
 			rng := c.Rand()
@@ -211,7 +211,7 @@ func runC01(r *rt.Runner) {
 	}
 
 	// ---- (3b) hostile programs inside eexec sections (dictionary-stack games around the section)
-	nEx := r.N(6000, 600000)
+	nEx := r.N(30000, 600000)
 	for k := 0; k < nEx; k++ {
 		r.Case("hostile-eexec", func(c *rt.C) {
 			rng := c.Rand()
@@ -256,7 +256,7 @@ func runC01(r *rt.Runner) {
 	}
 
 	// ---- (5) PFB: length fields, truncation, garbage; also through type1.Read
-	nPFB := r.N(4000, 400000)
+	nPFB := r.N(20000, 400000)
 	for k := 0; k < nPFB; k++ {
 		r.Case("hostile-pfb", func(c *rt.C) {
 			rng := c.Rand()
@@ -286,7 +286,7 @@ func runC01(r *rt.Runner) {
 	}
 
 	// ---- (6) AFM line-grammar fuzz
-	nAFM := r.N(4000, 400000)
+	nAFM := r.N(20000, 400000)
 	for k := 0; k < nAFM; k++ {
 		r.Case("hostile-afm", func(c *rt.C) {
 			rng := c.Rand()
@@ -307,7 +307,7 @@ func runC01(r *rt.Runner) {
 	}
 
 	// ---- (7) CMap: hostile counts, order and operand types
-	nCM := r.N(4000, 400000)
+	nCM := r.N(20000, 400000)
 	for k := 0; k < nCM; k++ {
 		r.Case("hostile-cmap", func(c *rt.C) {
 			rng := c.Rand()
@@ -320,7 +320,7 @@ func runC01(r *rt.Runner) {
 	}
 
 	// ---- (8) byte-level mutation of valid files of every kind
-	nMut := r.N(8000, 800000)
+	nMut := r.N(40000, 800000)
 	for k := 0; k < nMut; k++ {
 		r.Case("mutated", func(c *rt.C) {
 			rng := c.Rand()
